@@ -324,6 +324,7 @@ func TestC20FindNode(t *testing.T) {
 		nt := genNet(t)
 		initial := nt.genInitial(t)
 		rejectPool := rapid.Bool().Draw(t, "validatorRejectsPool")
+		rejectBogus := rapid.Bool().Draw(t, "validatorRejectsBogusInfo")
 		poolSet := map[p2p.PeerID]bool{}
 		for _, id := range nt.pool {
 			poolSet[id] = true
@@ -340,7 +341,7 @@ func TestC20FindNode(t *testing.T) {
 				Initial: append([]kademlia.NodeInfo{}, initial...),
 				Target:  nt.target,
 				Validate: func(ni kademlia.NodeInfo) bool {
-					return !(rejectPool && poolSet[ni.ID])
+					return !(rejectPool && poolSet[ni.ID]) && !(rejectBogus && string(ni.Info) == "bogus")
 				},
 				Ask: func(dst kademlia.NodeInfo, req kademlia.FindNodeReq) (kademlia.FindNodeRes, error) {
 					nt.noteAsk(dst.ID)
@@ -380,6 +381,15 @@ func TestC20FindNode(t *testing.T) {
 		}
 		if (err == nil) != (res.Closest == nt.target) {
 			fail("err=%v but Closest=%s target=%s", err, idShort(res.Closest), idShort(nt.target))
+		}
+		// a reported record is one that was admitted: it passed the validator (or was given as initial)
+		if err == nil && !initSet[nt.target] {
+			if rejectBogus && string(res.Info) == "bogus" {
+				fail("the target was reported found with a record (info %q) that the validator rejects", res.Info)
+			}
+			if rejectPool && poolSet[nt.target] {
+				fail("the target %s was reported found although the validator rejects every record for that id", idShort(nt.target))
+			}
 		}
 		if len(initial) == 0 {
 			return
